@@ -925,6 +925,18 @@ impl TypedExpr {
                             continue;
                         }
                         if n < bits {
+                            // The operand is evaluated exactly once (it might contain assignments
+                            // or panics) and bound to a temporary that the repeated addition
+                            // refers to ('{' cannot occur in a user-defined identifier):
+                            let operand = "{const-mul-operand}".to_string();
+                            let operand_wires = y.compile(prg, env, circuit);
+                            env.push();
+                            env.let_in_current_scope(operand.clone(), operand_wires);
+                            let y = Box::new(Expr {
+                                inner: ExprEnum::Identifier(operand),
+                                meta: y.meta,
+                                ty: y.ty.clone(),
+                            });
                             let mut expr = y.clone();
                             for _ in 0..n - 1 {
                                 expr = Box::new(Expr {
@@ -933,16 +945,18 @@ impl TypedExpr {
                                     ty: ty.clone(),
                                 });
                             }
-                            if is_neg {
-                                return Expr {
+                            let product = if is_neg {
+                                Expr {
                                     inner: ExprEnum::UnaryOp(UnaryOp::Neg, expr),
                                     meta,
                                     ty: ty.clone(),
                                 }
-                                .compile(prg, env, circuit);
+                                .compile(prg, env, circuit)
                             } else {
-                                return expr.compile(prg, env, circuit);
-                            }
+                                expr.compile(prg, env, circuit)
+                            };
+                            env.pop();
+                            return product;
                         }
                     }
                 }
